@@ -306,7 +306,7 @@ theorem le_stepOwner {s s' : St} (hs : stepOwner s = some s') : Le s s' := by
     refine ⟨by simp, fun u => ?_⟩
     rw [occ_mk]
     by_cases hi : i < s.cl.size
-    · have := occ_setCl s i (fun cl => { cl with pc := .start }) u hi
+    · have := occ_setCl s i (fun _ => { pc := .start }) u hi
       simp only [occ, setCl_ordered, setCl_idle, setCl_opc, setCl_thr, setCl_cl, ho, clCount, clView] at this ⊢
       simp at this ⊢; omega
     · simp only [occ, setCl_ordered, setCl_idle, setCl_opc, setCl_thr, setCl_cl, sumA_modify_oob _ _ _ _ hi, ho]
